@@ -34,7 +34,7 @@ def parseH (toks : List String) : Option HOp :=
 
 /-- may `o` (at index `i`) be linearized first among `rem`? -/
 def minimal (rem : List HOp) (i : Nat) (o : HOp) : Bool :=
-  (rem.zipIdx).all (fun (o', j) => j == i || decide (o.inv ≤ o'.res) || decide (o'.res == 0 ∧ o.res == 0))
+  (rem.zipIdx).all (fun (o', j) => j == i || decide (o.inv ≤ o'.res))
 
 def removeAt {α : Type} : List α → Nat → List α
   | [], _ => []
